@@ -31,6 +31,8 @@ def env_for(plain):
   e['PYTHONHASHSEED'] = '0'
   if plain:
     e['VERIF_NO_CROSSHAIR'] = '1'
+  else:
+    e.pop('VERIF_NO_CROSSHAIR', None)
   return e
 
 
